@@ -80,7 +80,7 @@ Print Assumptions C10_noop_rebuild.
     are executed: a reachable rule runs iff its digest (which covers its own
     definition and, transitively, the digests of everything it depends on)
     is not in the cache with outputs still carrying the recorded stamps. *)
-Theorem C10_minimal_rebuild : forall h rs src ts w1 e1 L,
+Theorem C10_minimal_rebuild_partial : forall h rs src ts w1 e1 L,
   hist_in_scope h (empty_world rs src) ->
   let w := run h (empty_world rs src) in
   build_in_scope ts w -> load_world w ts = LOk L -> build ts w = (w1, e1, BOk) ->
@@ -90,7 +90,7 @@ Theorem C10_minimal_rebuild : forall h rs src ts w1 e1 L,
     exists F d, sdig L (w_rules w) (w_src w) F r = Some d /\
                 ~ valid_cached (w_out w) (w_cache w) d.
 Proof. exact exec_iff_hist. Qed.
-Print Assumptions C10_minimal_rebuild.
+Print Assumptions C10_minimal_rebuild_partial.
 
 (** ... and after a successful build every reachable rule's digest is
     validly cached: a rule whose digest is the same at the next build (nothing
@@ -103,6 +103,26 @@ Theorem C10_built_is_cached : forall h rs src ts w1 e1 L,
     valid_cached (w_out w1) (w_cache w1) d.
 Proof. exact built_is_cached_hist. Qed.
 Print Assumptions C10_built_is_cached.
+
+(** After a successful build and any source / rule edits (outputs left
+    alone), the next successful build does not execute a rule that was
+    reachable before and has the same action digest as before: what a change
+    does not reach is not rebuilt.  (The full claim is
+    [stmt_minimal_rebuild] in Caco/BuildProofs.v; its converse direction is
+    not proved.) *)
+Theorem C10_unchanged_not_rebuilt : forall h rs src ts w1 e1 L edits ts2 w3 e3 L2,
+  hist_in_scope h (empty_world rs src) ->
+  let w := run h (empty_world rs src) in
+  build_in_scope ts w -> load_world w ts = LOk L -> build ts w = (w1, e1, BOk) ->
+  forallb is_edit edits = true ->
+  let w2 := run edits w1 in
+  build_in_scope ts2 w2 -> load_world w2 ts2 = LOk L2 -> build ts2 w2 = (w3, e3, BOk) ->
+  forall r F d F2,
+    reach_rule L ts r -> sdig L (w_rules w) (w_src w) F r = Some d ->
+    sdig L2 (w_rules w2) (w_src w2) F2 r = Some d ->
+    ~ In r e3.
+Proof. exact unchanged_not_rebuilt_hist. Qed.
+Print Assumptions C10_unchanged_not_rebuilt.
 
 (** A rule whose execution failed is the last one logged, and its action
     digest has no cache entry afterwards: it cannot be taken as built. *)
